@@ -51,6 +51,7 @@ OWNERS = {
     "cut": {"C03", "C10"}, "nextseq": {"C13"}, "qtrim": {"C13"}, "polya": {"C14"}, "trimn": {"C14"},
     "shorten": {"C03", "C10"}, "zerocap": {"C03", "C10"}, "name": {"C10"},
     "orient": {"C16"}, "choice": {"C09", "C05"}, "action": {"C03"}, "adapter": {"C03", "C05", "C09", "C16"},
+    "record": {"C05", "C09", "C15", "C16", "C17", "C20"},
 }
 OBSERVATION_ONLY = {"Occ.AtMostOnce", "Stages.DocumentedOrder", "Struct1", "Struct2", "PairSync", "Report.InputCount", "Report.Conservation", "Report.WrittenMatchesFiles",
                     "Report.InputBasePairs", "Report.TextFateEqualsJson", "Report.MinimalEqualsJson",
